@@ -6,6 +6,7 @@ import logging
 import numbers
 import operator
 import os
+import re
 import signal
 import sys
 import threading
@@ -256,6 +257,20 @@ def condom(f):
     return z3_condom
 
 
+_Z3_ESCAPE = re.compile(r"\\u\{([0-9a-fA-F]+)\}")
+
+
+def _z3_string_encode(s: str) -> str:
+    # Z3 interprets \u{..} and \uXXXX escapes in string literals: escape the backslash itself so that the
+    # solver sees exactly the characters the caller wrote
+    return s.replace("\\", "\\u{5c}")
+
+
+def _z3_string_decode(s: str) -> str:
+    # the inverse: Z3 prints non-printable and non-ASCII characters (and ambiguous backslashes) as \u{..}
+    return _Z3_ESCAPE.sub(lambda m: chr(int(m.group(1), 16)), s)
+
+
 def _z3_decl_name_str(ctx, decl):
     decl_name = z3.Z3_get_decl_name(ctx, decl)
     return z3.Z3_get_symbol_string_bytes(ctx, decl_name)
@@ -499,7 +514,7 @@ class BackendZ3(Backend):
 
     @condom
     def StringV(self, ast):
-        return z3.StringVal(ast.args[0], ctx=self._context)
+        return z3.StringVal(_z3_string_encode(ast.args[0]), ctx=self._context)
 
     @condom
     def StringS(self, ast):
@@ -584,7 +599,7 @@ class BackendZ3(Backend):
         if op_name.startswith("RM_"):
             return RM(op_name)
         if op_name == "INTERNAL":
-            return claripy.StringV(z3.SeqRef(ast).as_string())
+            return claripy.StringV(_z3_string_decode(z3.SeqRef(ast).as_string()))
         if op_name == "BitVecVal":
             bv_size = z3.Z3_get_bv_sort_size(ctx, z3_sort)
             if z3.Z3_get_numeral_uint64(ctx, ast, self._c_uint64_p):
@@ -741,7 +756,7 @@ class BackendZ3(Backend):
         if op_name == "INTERNAL":
             seq = z3.SeqRef(ast)
             if seq.is_string():
-                return seq.as_string()
+                return _z3_string_decode(seq.as_string())
         raise BackendError("Unable to abstract Z3 object to primitive")
 
     def _abstract_bv_val(self, ctx, ast):
